@@ -106,6 +106,18 @@ Definition root_name (r : root_form) : str :=
 Definition is_type (W : wsdl) (q : qn) : bool :=
   match find_named W q with Some _ => true | None => false end.
 
+Definition sentry_named (nm : name) (e : sentry) : bool :=
+  match e with SE d _ _ => N.eqb (e_name d) nm | SWild => false end.
+
+(* is nm the name of a LOCAL element declared in some named type of that
+   namespace?  Spelled without its path such a name is neither a declared
+   global name nor certainly unknown (suds' deep search finds some of them):
+   no claim *)
+Definition local_named (W : wsdl) (q : qn) : bool :=
+  existsb (fun t => N.eqb (c_ns t) (fst q) &&
+                    existsb (sentry_named (snd q)) (flat_map s_particle (c_content t)))
+          (w_types W).
+
 Definition root_targets (W : wsdl) (r : root_form) : designation :=
   match root_uri W r with
   | None => DTargets []              (* undeclared prefix: an unknown name *)
@@ -113,15 +125,15 @@ Definition root_targets (W : wsdl) (r : root_form) : designation :=
       if starts_with w3_prefix u then DNoClaim else
       match lookup_uri W u, lookup_name W (root_name r) with
       | Some ns, Some nm =>
-          DTargets (map (fun e => target_of_tref (snd e))
-                        (filter (fun e => qn_eqb (fst (fst e), snd (fst e)) (ns, nm)) (w_elems W))
-                    ++ (if is_type W (ns, nm) then [TgType (ns, nm)] else []))
+          match map (fun e => target_of_tref (snd e))
+                    (filter (fun e => qn_eqb (fst (fst e), snd (fst e)) (ns, nm)) (w_elems W))
+                ++ (if is_type W (ns, nm) then [TgType (ns, nm)] else []) with
+          | [] => if local_named W (ns, nm) then DNoClaim else DTargets []
+          | ts => DTargets ts
+          end
       | _, _ => DTargets []
       end
   end.
-
-Definition sentry_named (nm : name) (e : sentry) : bool :=
-  match e with SE d _ _ => N.eqb (e_name d) nm | SWild => false end.
 
 Definition is_wild (e : sentry) : bool := match e with SWild => true | _ => false end.
 
@@ -299,12 +311,24 @@ Definition value_ok (sub : list qn -> ctype -> pv -> bool) (path : list qn) (e :
             end)
   end.
 
+(* a simpleContent type: the object holds the text under "value" (None when
+   fresh), then the attributes *)
 Fixpoint mirrors (path : list qn) (t : ctype) (v : pv) {struct v} : bool :=
   match v with
   | PObj _ items =>
-      attrs_match (exp_attrs W t) (filter is_attr_item items) &&
-      match_members (fun e k x => value_ok (fun p t' y => mirrors p t' y) path e k x)
-                    (absent_ok path) (exp_members W t) items
+      if is_mixed W t then
+        match items with
+        | ((k, false), PNone) :: r =>
+            N.eqb k n_value &&
+            attrs_match (exp_attrs W t) (filter is_attr_item r) &&
+            match_members (fun e k x => value_ok (fun p t' y => mirrors p t' y) path e k x)
+                          (absent_ok path) (exp_members W t) r
+        | _ => false
+        end
+      else
+        attrs_match (exp_attrs W t) (filter is_attr_item items) &&
+        match_members (fun e k x => value_ok (fun p t' y => mirrors p t' y) path e k x)
+                      (absent_ok path) (exp_members W t) items
   | _ => false
   end.
 
@@ -350,10 +374,17 @@ Fixpoint nodupb (l : list key) : bool :=
   | k :: r => negb (key_in k r) && nodupb r
   end.
 
+(* a simpleContent type has attributes only *)
+Definition wf_mixed (W : wsdl) : bool :=
+  forallb (fun t => negb (is_mixed W t) ||
+                    forallb (fun it => match it with FA _ => true | _ => false end) (all_items W t))
+          (w_types W).
+
 (* within one type (inherited members included) no two elements and no two
-   attributes share a name: "Element Declarations Consistent" of XSD *)
+   attributes share a name ("Element Declarations Consistent" of XSD), and
+   simpleContent types have no element content *)
 Definition wf_names (W : wsdl) : bool :=
-  forallb (fun t => nodupb (ordering (all_items W t))) (w_types W).
+  forallb (fun t => nodupb (ordering (all_items W t))) (w_types W) && wf_mixed W.
 
 (* no required, non-repeating member has an enumeration type (where the
    unchanged code pre-builds a Property {value = None} instead of None:
